@@ -127,6 +127,9 @@ FAULTS = [
     ("«br» .+1000", "branch-out-of-bounds"), ("«mov r0»", "wrong-operands"), (".word «1 / 0»", "arithmetic-error"), ("«.error oops»", "user-error"), (".word «8»", "invalid-number"),
     (".rad50 «\"a#b\"»", "invalid-character"), ("«jsr 5, x»", "invalid-addressing"), ("«emt» 400", "value-out-of-bounds"), ("«sob» r0, .+4", "branch-out-of-bounds"),
     (".blkb «-1»", "value-out-of-bounds"), ("«.link 5»", "address-conflict"),
+    # parse-time faults whose culprit token is preceded by blanks, a tab or a comment and a line break
+    ("mov r0   «,» ]", "invalid-operand"), ("mov r0 ; c\n\t  «,» ; d\n]", "invalid-operand"), ("1, 2 \t«,» ]", "invalid-operand"), (".word 1 + «)»", "invalid-insn"),
+    (".ascii «\"abc»", "unterminated-string"), ("x «=» ]", "invalid-assignment"),
 ]
 
 
